@@ -27,6 +27,8 @@ fi
 mkdir -p $sr
 (cd /verif && tar cf - --exclude=.git --exclude=replays --exclude=seeded . | (cd $sr && tar xf -))
 sed -i "s#chialisp = { path = \"/repo\" }#chialisp = { path = \"$wt\" }#" $sr/harness/Cargo.toml
+# the chialisp artifact carries no per-path hash: make sure the copy rebuilds it from the worktree
+(cd $sr/harness && cargo clean --release -p chialisp --offline >/dev/null 2>&1 || true)
 for id in "$@"; do
   out=$(cd $sr && VERIF_REPO=$wt ./check $id quick 2>&1); rc=$?
   echo "check $id rc=$rc $(echo "$out" | grep -v '^KNOWN-FINDING' | grep -E 'VIOLATION|quick:' | tr '\n' ' ' | cut -c1-400)"
